@@ -63,7 +63,13 @@ def regexpp(regex: Any) -> str:
         "\u2029": r"\u2029",
     }
 
-    result = "".join(ctrl_map.get(c, c) for c in pattern_text)
+    # NOTE: an escaped control character is that character: `\<LF>` is `\n`, not `\\n`
+    result = re.sub(
+        r"\\.|.",
+        lambda m: ctrl_map.get(m[0][-1], m[0]),
+        pattern_text,
+        flags=re.DOTALL,
+    )
 
     # Handle trailing backslashes (odd count check for raw string safety)
     if result.endswith("\\") and (len(result) - len(result.rstrip("\\"))) % 2 != 0:
